@@ -200,6 +200,10 @@ def check(ctx):
         okc = bool(cnt) and norm(arg(inc, None, "amount")) in ("count",) and any(isinstance(n, ast.For) and ".items()" in norm(n.iter) for n in tot.own_nodes())
         ctx.ob("C15.P4", f"{tot.short}/amount", okc, loc(tot), "amount = multiplicity of the scope among the Call nodes" if okc else "announced amount is not the multiplicity of the scope")
     ctx.floor("C15.P3", "running/finished brackets", n_br, 2)
+    from .extra import rule_error_path_total
+    ctx.run(rule_error_path_total, "C15.P3")
+    ctx.run(E.rule_atomic_counter, "C15.P3", er)
+    ctx.run(E.rule_one_callback_per_dequeue, "C15.P3", er)
     # ---------------------------------------------------------------- P6
     po = m.one_class("ProgressObserver", "OBSERVER-API")
     comp = m.one_class("CompositeProgressObserver", "COMPOSITE")
